@@ -3,6 +3,7 @@
   (and, after ` | `, by the specification where the oracle lives in Lean).
 -/
 import Driver.Codec
+import Driver.TimeRange
 import SlacModel.Display
 import SlacModel.Json
 import SlacModel.Optimizer
@@ -320,6 +321,7 @@ def step (line : String) : String :=
     | "lay" :: r => runLay r
     | "rr" :: r => runRr r
     | "re" :: r => runRe r
+    | "tmrange" :: r => TimeRange.run r
     | "chkbool" :: r => runChkbool r
     | _ => none
   r.getD "bad"
